@@ -860,6 +860,27 @@ func ringCases(maxLen int, emit emitter) {
 	}
 }
 
+// unionMemberCycleCases: struct cycles that pass through a struct DECLARED as a union branch and referenced by name
+// (a branch struct is a definition like any other: it can be a field type elsewhere), and the terminating counterparts.
+func unionMemberCycleCases(emit emitter) {
+	rej := func(detail, site, text string, n int) {
+		emit(Case{Base: "union-member-cycle", Class: "struct-cycle", SiteKind: fmt.Sprintf("length=%d", n), Detail: detail, Site: site, Schema: text, Expect: "reject"})
+	}
+	acc := func(detail, site, text string) {
+		emit(Case{Base: "union-member-cycle", Class: "terminating-recursion", SiteKind: "union-member-struct", Detail: detail, Site: site, Schema: text, Expect: "accept"})
+	}
+	rej("member-self", "a branch struct has a by-value field of its own type", "union U {\n    1 -> struct A {\n        int32 v;\n        A again;\n    }\n}\n", 1)
+	rej("member-and-top-level", "branch struct A holds top-level struct B, B holds A", "union U {\n    1 -> struct A {\n        B b;\n    }\n}\nstruct B {\n    A a;\n}\n", 2)
+	rej("top-level-first", "the same, the top-level struct declared first", "struct B {\n    A a;\n}\nunion U {\n    1 -> struct A {\n        B b;\n    }\n    2 -> struct C {\n        int32 x;\n    }\n}\n", 2)
+	rej("sibling-members", "two branch structs of one union hold each other", "union U {\n    1 -> struct A {\n        B b;\n    }\n    2 -> struct B {\n        A a;\n    }\n}\n", 2)
+	rej("members-of-two-unions", "branch structs of two unions hold each other", "union U {\n    1 -> struct A {\n        B b;\n    }\n}\nunion V {\n    1 -> struct B {\n        A a;\n    }\n}\n", 2)
+	rej("through-two-top-level", "branch struct A -> S -> T -> A", "struct S {\n    T t;\n}\nunion U {\n    1 -> struct A {\n        S s;\n    }\n}\nstruct T {\n    int32 v;\n    A a;\n}\n", 3)
+	rej("readonly-top-level", "branch struct and a readonly struct hold each other", "union U {\n    1 -> struct A {\n        B b;\n    }\n}\nreadonly struct B {\n    A a;\n}\n", 2)
+	acc("through-message", "branch struct A holds message M, M holds A", "union U {\n    1 -> struct A {\n        M m;\n    }\n}\nmessage M {\n    1 -> A a;\n}\n")
+	acc("through-its-union", "branch struct A holds its own union, which has another branch", "union U {\n    1 -> struct A {\n        U u;\n    }\n    2 -> struct Z {\n        int32 v;\n    }\n}\n")
+	acc("array-free-chain", "branch struct A holds top-level struct B, no way back", "union U {\n    1 -> struct A {\n        B b;\n    }\n}\nstruct B {\n    int32 v;\n}\nstruct Uses {\n    A a;\n    B b;\n}\n")
+}
+
 // scaleCases: long chains and rings (termination and verdict of the fixpoint at sizes far above the graph bound),
 // and array/map-of-self shapes whose verdict is unasserted (termination only).
 func scaleCases(sizes []int, emit emitter) {
